@@ -127,6 +127,8 @@ pub fn rand_elem<E: FieldElement>(rng: &mut simcore::rng::Xoshiro) -> E {
 pub enum Which {
     Byzantine,
     Honest,
+    /// the honest scenario in the concurrent build, under a simulated thread pool
+    HonestScheduled,
 }
 
 struct FriJob<'a> {
@@ -151,7 +153,8 @@ impl<'a> Job for FriJob<'a> {
 fn go<B: SimField, E: FieldElement<BaseField = B>, H: ElementHasher<BaseField = B> + Send + Sync + 'static>(ch: &mut Chooser, ctx: &mut Ctx, which: Which, thorough: bool) {
     match which {
         Which::Byzantine => byzantine::<B, E, H>(ch, ctx, thorough),
-        Which::Honest => honest::<B, E, H>(ch, ctx, thorough),
+        Which::Honest => honest::<B, E, H>(ch, ctx, thorough, false),
+        Which::HonestScheduled => honest_scheduled::<B, E, H>(ch, ctx, thorough),
     }
 }
 
@@ -401,7 +404,38 @@ fn byzantine<B: SimField, E: FieldElement<BaseField = B>, H: ElementHasher<BaseF
 // C15: HONEST CHANNEL
 // ------------------------------------------------------------------------------------------------
 
-fn honest<B: SimField, E: FieldElement<BaseField = B>, H: ElementHasher<BaseField = B>>(ch: &mut Chooser, ctx: &mut Ctx, thorough: bool) {
+#[cfg(not(feature = "concurrent"))]
+fn honest_scheduled<B: SimField, E: FieldElement<BaseField = B>, H: ElementHasher<BaseField = B>>(_ch: &mut Chooser, ctx: &mut Ctx, _thorough: bool) {
+    ctx.skipped = Some("needs_the_concurrent_build");
+}
+
+/// The honest scenario with the `concurrent` feature: the FRI prover's folding (apply_drp, row
+/// hashing, Merkle construction, remainder interpolation) then runs on rayon, i.e. on SimRayon.
+/// Pool size from the tape; the schedule choices come from a private PRNG seeded with a taped
+/// salt (salt 0 = the in-order schedule), because the scenario itself owns the run's chooser.
+#[cfg(feature = "concurrent")]
+fn honest_scheduled<B: SimField, E: FieldElement<BaseField = B>, H: ElementHasher<BaseField = B>>(ch: &mut Chooser, ctx: &mut Ctx, thorough: bool) {
+    let pool = if ch.chance("pool.any?", 1, 3) { 1 + ch.index("pool.size", 64) } else { crate::c14::POOLS[ch.index("pool.pick", crate::c14::POOLS.len())] };
+    let salt = ch.u64("sched.salt");
+    let mut rng = simcore::rng::Xoshiro::from_u64(salt);
+    let mut picker = move |_site: &'static str, n: u64| if salt == 0 { 0 } else { rng.below(n) };
+    ctx.event("pool", pool as u64, salt);
+    if !pool.is_power_of_two() {
+        ctx.fault("pool_size_not_power_of_two");
+    }
+    if pool > 16 {
+        ctx.fault("pool_larger_than_16");
+    }
+    rayon::sim::with_schedule(pool, &mut picker, || honest::<B, E, H>(ch, ctx, thorough, true));
+    let st = rayon::sim::stats();
+    ctx.probe_n("tasks", st.tasks);
+    ctx.probe_n("reordered_tasks", st.reorders);
+    if st.reorders > 0 {
+        ctx.fault("schedule_reordered_tasks");
+    }
+}
+
+fn honest<B: SimField, E: FieldElement<BaseField = B>, H: ElementHasher<BaseField = B>>(ch: &mut Chooser, ctx: &mut Ctx, thorough: bool, large: bool) {
     // "big openings": 255 distinct coset rows of 16 elements of 24 or 32 bytes each - the opened
     // values of the first layer then need more than 65535 bytes (the size at which a 16-bit
     // length would wrap). Only reachable with folding 16 and the widest element types.
@@ -419,6 +453,18 @@ fn honest<B: SimField, E: FieldElement<BaseField = B>, H: ElementHasher<BaseFiel
                 break c;
             }
         }
+    } else if large {
+        // domains on both sides of the sizes at which the concurrent code splits its work
+        // (1024 rows per batch, 1024 leaves per tree)
+        let mut c = gen_fri_cfg(ch, if thorough { 14 } else { 13 });
+        if c.log_domain < 11 && ch.chance("large.force?", 3, 4) {
+            c.log_domain = 11 + ch.index("large.log", 3) as u32;
+            if !c.well_formed() {
+                c.folding = 2;
+            }
+            c.num_queries = c.num_queries.min(c.domain() - 1);
+        }
+        c
     } else {
         gen_fri_cfg(ch, if thorough { 13 } else { 11 })
     };
@@ -661,12 +707,21 @@ pub fn spec_c05() -> CheckSpec {
 }
 
 pub fn spec_c15() -> CheckSpec {
-    let arms: Vec<Box<dyn Arm>> = vec![Box::new(FnArm { name: "honest-channel", quick: 20_000, thorough: 400_000, f: |i: &RunInfo, c: &mut Chooser, x: &mut Ctx| scenario(Which::Honest, i, c, x) })];
+    let arms: Vec<Box<dyn Arm>> = vec![
+        Box::new(FnArm { name: "honest-channel", quick: 20_000, thorough: 400_000, f: |i: &RunInfo, c: &mut Chooser, x: &mut Ctx| scenario(Which::Honest, i, c, x) }),
+        Box::new(simcore::iso::IsoArm {
+            check_id: "C15",
+            inner: Box::new(FnArm { name: "honest-channel-scheduled", quick: 1_200, thorough: 30_000, f: |i: &RunInfo, c: &mut Chooser, x: &mut Ctx| scenario(Which::HonestScheduled, i, c, x) }),
+            timeout_s: 120,
+            exe_env: Some("WFSIM_CONC"),
+            alias: None,
+        }),
+    ];
     CheckSpec {
         id: "C15",
         level: "exploration",
-        build: "serial",
-        rule: "one run = one FRI configuration (as C05, domain up to 2^13) x one polynomial of degree 0 / exactly the bound / in between; the REAL FriProver runs behind a recording channel: every commitment it makes is compared, as the run proceeds, with the commitment of the coefficient-domain reference fold of the previous layer under the challenge it was handed (the folding identity as a per-message invariant), likewise the remainder commitment; then raw query positions with duplicates and post-folding collisions, proof accepted by the real verifier, also after the byte round trip and after a chunked ReadAdapter transport; then the same prover instance is reused for a second proof. Every run is non-trivial; distinct = distinct event-log digests.".into(),
+        build: "serial (+ concurrent build under SimRayon for one arm)",
+        rule: "one run = one FRI configuration (as C05, domain up to 2^13) x one polynomial of degree 0 / exactly the bound / in between; the REAL FriProver runs behind a recording channel: every commitment it makes is compared, as the run proceeds, with the commitment of the coefficient-domain reference fold of the previous layer under the challenge it was handed (the folding identity as a per-message invariant), likewise the remainder commitment; then raw query positions with duplicates and post-folding collisions, proof accepted by the real verifier, also after the byte round trip and after a chunked ReadAdapter transport; then the same prover instance is reused for further proofs. Arm honest-channel-scheduled: the same scenario in the concurrent build inside an isolated worker, domains 2^11..2^14, under a simulator-chosen pool size (1..64) and task schedule (SimRayon): the folding identity, acceptance and the round trips must hold for the concurrently computed layers as well. Every run is non-trivial; distinct = distinct event-log digests.".into(),
         interleaving_measure: "distinct (configuration, polynomial, positions, transport chunking) histories".into(),
         real: vec!["fri::FriProver (build_layers, build_proof, reuse), fri::folding::apply_drp / fold_positions, FriVerifier, FriProof (de)serialization, utils::ReadAdapter"],
         stub: vec!["the prover channel (records commitments and challenges)", "the reference fold (math::fft interpolation + coefficient recombination)"],
